@@ -588,9 +588,16 @@ class Ops(SeriesOps):
         right = pos[0] if pos else kw.get("right")
         return self.do_merge(f, right, kw, node)
 
+    def _ser_as_frame(self, s: Ser, node) -> Frame:
+        """a named series used where a frame is expected: the one-column frame of ITS values (which may differ from the like-named column it was computed from)"""
+        g = self.project(s.frame, [s.name], node)
+        if isinstance(s.name, str) and g.col(s.name) != s.term:
+            g.setcol(s.name, s.term)
+        return g
+
     def do_merge(self, L, R, kw, node):
         if isinstance(R, Ser) and R.frame is not None and R.name:
-            R = self.project(R.frame, [R.name], node)
+            R = self._ser_as_frame(R, node)
         if not isinstance(L, Frame) or not isinstance(R, Frame):
             return Frame(("opaque-merge", self.I.new_id()))
         how = kw.get("how", "inner")
@@ -611,7 +618,7 @@ class Ops(SeriesOps):
     def f_join(self, f, pos, kw, node):
         other = pos[0] if pos else kw.get("other")
         if isinstance(other, Ser) and other.frame is not None and other.name:
-            other = self.project(other.frame, [other.name], node)
+            other = self._ser_as_frame(other, node)
         on = kw.get("on")
         lk = [on] if isinstance(on, str) else (on if isinstance(on, list) else ["__index__"])
         sfx = (kw.get("lsuffix", ""), kw.get("rsuffix", ""))
@@ -740,7 +747,7 @@ class Ops(SeriesOps):
             elif isinstance(fr, Frame):
                 parts.append(("one", fr.derive()))
             elif isinstance(fr, Ser) and fr.frame is not None:
-                parts.append(("one", self.project(fr.frame, [fr.name], node) if fr.name else fr.frame.derive()))
+                parts.append(("one", self._ser_as_frame(fr, node) if fr.name else fr.frame.derive()))
             else:
                 parts.append(("other", to_term(fr)))
         sig = tuple((k, p.ctx() if isinstance(p, Frame) else p) for k, p in parts)
